@@ -37,6 +37,7 @@ type lifeModel struct {
 	// rows obtained from AppendNewRow (sized for the table's width at that moment)
 	appended      int
 	firstAppended int // 1-based index into rows, 0 = none
+	copied        bool
 }
 
 func (m *lifeModel) newCell(text string, mask int, f ItemF) *lifeCell {
@@ -207,6 +208,24 @@ func lifeOps(withAlign, withSkip bool) []lifeOp {
 			m.rows[1] = append(m.rows[1], a)
 			m.t.AllRows()[1].Add(tabular.NewCell(a.ptr))
 		}},
+	}
+	if !withSkip {
+		// (not for JSON, which shows the item itself rather than the cell's text)
+		ops = append(ops, lifeOp{"AddRow(NewRow().Add(*CellAt(1,1)).Add(NewCell(cp)))  // a live cell copied by value into a new row", func(m *lifeModel) bool { return len(m.rows) < 4 && !m.copied }, func(m *lifeModel) {
+			cp, err := m.t.CellAt(tabular.CellLocation{Row: 1, Column: 1})
+			if err != nil {
+				panic("harness: CellAt: " + err.Error())
+			}
+			r := tabular.NewRow().Add(*cp).Add(tabular.NewCell("cp"))
+			m.t.AddRow(r)
+			// the copy shows what the original showed when it was copied, and keeps showing it: it shares the item, but
+			// nobody calls Update on the copy
+			copyCell := &lifeCell{TCell: m.rows[0][0].TCell}
+			second := &lifeCell{}
+			second.Text = "cp"
+			m.rows = append(m.rows, []*lifeCell{copyCell, second})
+			m.copied = true
+		}})
 	}
 	if withAlign {
 		for col := 0; col <= 3; col++ {
